@@ -60,8 +60,18 @@ theorem ceil_mul_ge (len k : Nat) (hk : 0 < k) : len ≤ k * ((len + k - 1) / k)
   generalize k * ((len + k - 1) / k) = m at h ⊢
   omega
 
+theorem ceil_le (len k : Nat) (hk : 0 < k) (hlen : 0 < len) : (len + k - 1) / k ≤ len := by
+  apply Nat.div_le_of_le_mul
+  cases k with
+  | zero => omega
+  | succ k' =>
+    rw [Nat.succ_mul]
+    have : k' ≤ k' * len := Nat.le_mul_of_pos_right k' hlen
+    omega
+
 theorem perShard_spec (len k p : Nat) (hk : 0 < k) (hlen : 0 < len) :
-    len ≤ k * perShard len k p ∧ 0 < perShard len k p := by
+    len ≤ k * perShard len k p ∧ 0 < perShard len k p ∧ perShard len k p ≤ len + 63 := by
+  have hcl := ceil_le len k hk hlen
   have hc := ceil_mul_ge len k hk
   have hcpos : 0 < (len + k - 1) / k := by
     cases hq : (len + k - 1) / k with
@@ -74,14 +84,16 @@ theorem perShard_spec (len k p : Nat) (hk : 0 < k) (hlen : 0 < len) :
       have h := Nat.div_add_mod ((len + k - 1) / k + 63) 64
       have hr := Nat.mod_lt ((len + k - 1) / k + 63) (by decide : 0 < 64)
       omega
-    exact ⟨Nat.le_trans hc (Nat.mul_le_mul_left k h64), by omega⟩
-  · exact ⟨hc, hcpos⟩
+    have h64' : ((len + k - 1) / k + 63) / 64 * 64 ≤ (len + k - 1) / k + 63 := Nat.div_mul_le_self _ _
+    exact ⟨Nat.le_trans hc (Nat.mul_le_mul_left k h64), by omega, by omega⟩
+  · exact ⟨hc, hcpos, by omega⟩
 
 /-- The data shards klauspost `Split` makes of non-empty data: `k` shards of one non-zero size whose
 concatenation is the data followed by zeros (no zeros for a padded message and at most 256
 shards; the Leopard codec rounds the shard size up to a multiple of 64). -/
 theorem splitData_spec (data : Bytes) (k p : Nat) (hk : 0 < k) (hne : data ≠ []) :
-    ∃ s z, 0 < s ∧ (splitData data k p).length = k ∧ (∀ x ∈ splitData data k p, x.length = s) ∧
+    ∃ s z, 0 < s ∧ s ≤ data.length + 63 ∧ (splitData data k p).length = k ∧
+      (∀ x ∈ splitData data k p, x.length = s) ∧
       (splitData data k p).flatten = data ++ List.replicate z 0 := by
   have hlenpos : 0 < data.length := by
     cases data with
@@ -92,14 +104,14 @@ theorem splitData_spec (data : Bytes) (k p : Nat) (hk : 0 < k) (hne : data ≠ [
   · have hk1 : k = 1 := by omega
     subst hk1
     simp only [h1, if_true]
-    refine ⟨data.length, 0, hlenpos, rfl, ?_, by simp⟩
+    refine ⟨data.length, 0, hlenpos, by omega, rfl, ?_, by simp⟩
     intro x hx; simp at hx; subst hx; rfl
   · simp only [h1, if_false]
-    obtain ⟨hge, hpos⟩ := perShard_spec data.length k p hk hlenpos
+    obtain ⟨hge, hpos, hle⟩ := perShard_spec data.length k p hk hlenpos
     obtain ⟨a, b, c⟩ := chunk_spec (perShard data.length k p) k
       (data ++ List.replicate (k * perShard data.length k p - data.length) 0)
       (by simp only [List.length_append, List.length_replicate]; omega)
-    exact ⟨_, _, hpos, a, b, c⟩
+    exact ⟨_, _, hpos, hle, a, b, c⟩
 
 /-! ### CreatePropellerUnits -/
 
@@ -133,11 +145,11 @@ theorem encOf_spec (rs : RS) (msg : Bytes) (k p : Nat) (hl : RSLaws rs k p) (hin
     ∃ s, 0 < s ∧ (encOf rs msg k p).length = k + p ∧ (∀ x ∈ encOf rs msg k p, x.length = s) ∧
       (splitData (pad msg k) k p).length = k ∧
       (∀ x ∈ splitData (pad msg k) k p, x.length = s) ∧
-      ∃ extra, (encOf rs msg k p).flatten = pad msg k ++ extra := by
+      (∃ extra, (encOf rs msg k p).flatten = pad msg k ++ extra) ∧ s ≤ (pad msg k).length + 63 := by
   have hne : pad msg k ≠ [] := by
     intro h; have := pad_ne_nil msg k; rw [h] at this; simp at this
-  obtain ⟨s, z, hs, h1, h2, h3⟩ := splitData_spec (pad msg k) k p hin.1 hne
-  refine ⟨s, hs, ?_, ?_, h1, h2, List.replicate z 0 ++ (rs.parity k p (splitData (pad msg k) k p)).flatten, ?_⟩
+  obtain ⟨s, z, hs, hsle, h1, h2, h3⟩ := splitData_spec (pad msg k) k p hin.1 hne
+  refine ⟨s, hs, ?_, ?_, h1, h2, ⟨List.replicate z 0 ++ (rs.parity k p (splitData (pad msg k) k p)).flatten, ?_⟩, hsle⟩
   · simp [encOf, h1, hl.parity_length _ h1]
   · intro x hx
     simp only [encOf, List.mem_append] at hx
@@ -254,7 +266,7 @@ theorem construct_created_aux [DecidableEq H] (cfg : Cfg) (f : HashFns H) (rs : 
       | some u0 =>
         if u0.root ≠ (treeOf cfg f rs msg k p).1 then .err .root
         else .ok (msg, (encOf rs msg k p).getD localIdx [], (treeOf cfg f rs msg k p).2.getD localIdx []) := by
-  obtain ⟨s, hs, hlen, hsize, hdlen, hdsize, extra, hflat⟩ := encOf_spec rs msg k p hl hin
+  obtain ⟨s, hs, hlen, hsize, hdlen, hdsize, ⟨extra, hflat⟩, _⟩ := encOf_spec rs msg k p hl hin
   have hk := hin.1
   generalize hunits : mkUnits C P (treeOf cfg f rs msg k p).1 (treeOf cfg f rs msg k p).2 sig n 0
     (encOf rs msg k p) = units
@@ -441,7 +453,9 @@ theorem construct_ok_inv [DecidableEq H] (cfg : Cfg) (f : HashFns H) (rs : RS)
           cases hru : rootUnit cfg U with
           | none =>
             simp only [hru] at hc
-            split at hc <;> cases hc
+            by_cases hrp : cfg.rootFromPresent = true
+            · simp [hrp] at hc
+            · simp [hrp] at hc
           | some u0 =>
             simp only [hru] at hc
             by_cases hne : u0.root ≠ (merkleNew f (full.map (leafOf cfg.shardingLeafProto))).1
@@ -470,7 +484,7 @@ theorem construct_sound [DecidableEq H] (cfg : Cfg) (f : HashFns H) (hI : Ideal 
     (hroot : ∀ u0, rootUnit cfg U = some u0 → u0.root = (treeOf cfg f rs msg k p).1) :
     m = msg ∧ sh = (encOf rs msg k p).getD localIdx [] ∧
       pr = (treeOf cfg f rs msg k p).2.getD localIdx [] := by
-  obtain ⟨s, hs, hlen, hsize, hdlen, hdsize, extra, hflat⟩ := encOf_spec rs msg k p hl hin
+  obtain ⟨s, hs, hlen, hsize, hdlen, hdsize, ⟨extra, hflat⟩, _⟩ := encOf_spec rs msg k p hl hin
   obtain ⟨shards, full, u0, _, hrec, hu0, hr0, hup, hloc, hsh, hpr⟩ :=
     construct_ok_inv cfg f rs U localIdx k p m sh pr hc
   have hr := hroot u0 hu0
